@@ -10,6 +10,7 @@ Bind : each schedule is replayed against the real parseAndWriteOutput / main() w
 import builtins
 import errno
 import hashlib
+import json
 import io
 import os
 import random
@@ -35,10 +36,17 @@ MAX_PROCS = 8
 EXHAUSTIVE = {'quick': True, 'thorough': True}
 
 
+# CleanWriteN.tla: the -j -c loop over any set of files, any number of write calls, any failure schedule;
+# THEOREM Safety (input removed => output complete) is proved with tlapm, the TLC instance checks 3 files x 2 chunks
+PROOFS = ['CleanWriteN']
+
+
 def model_checks(tier):
     return [dict(module='mc/MC_CleanWrite', cfg='mc/MC_CleanWrite_repaired', workers=2,
                  must_cover=['Decode', 'OpenOut', 'Write', 'Flush', 'Close', 'CloseAfterFailure', 'Remove',
-                             'Crash'])]
+                             'Crash']),
+            dict(module='mc/MC_CleanWriteN', workers=4,
+                 must_cover=['Pick', 'Decode', 'Open', 'Write', 'Close', 'CloseFail', 'Remove', 'Crash'])]
 
 
 def cases(tier, seed, info):
@@ -68,6 +76,28 @@ def cases(tier, seed, info):
                 out.append(dict(kind='crash', mode=m, point=pt_, pel=p, data=data))
         for lim in ('zero', 'one', 'hundred', 'half', 'minus1', 'exact', 'none'):
             out.append(dict(kind='rlimit', limit=lim, pel=p, data=data))
+    # behaviours of CleanWriteN (several files, every step free to fail, the process free to die) replayed
+    # through the real -j -c
+    # (TLC enumerates ALL of them for 3 files x 2 write calls: 2058 complete behaviours and every crashed prefix)
+    allb, _ = tlc.generate('gen/Gen_CleanWriteN', 'gen/Gen_CleanWriteN_crash')
+    allb = sorted(allb, key=lambda b: json.dumps(b, sort_keys=True))
+    removed = lambda b: sum(1 for v in b['input'].values() if v == 'removed')
+    if tier == 'quick':
+        strata = {}
+        for b in allb:
+            strata.setdefault((b['crashed'], removed(b)), []).append(b)
+        take = []
+        for key in sorted(strata):
+            rng.shuffle(strata[key])
+            take += strata[key][:30]
+    else:
+        take = allb
+    for k, b in enumerate(take):
+        out.append(dict(kind='multi', beh=b, seed=seed * 7919 + k))
+    info['cleanwriten_behaviours_from_tlc'] = len(allb)
+    info['cleanwriten_behaviours_replayed'] = len(take)
+    info['cleanwriten_behaviours_with_a_removal'] = len([b for b in take if removed(b)])
+    info['cleanwriten_enumeration_exhaustive'] = tier != 'quick'
     info['crash_points'] = sum(len(v) for v in CRASH_POINTS.values())
     info['rlimit_fsize_runs_per_pel'] = 7
     return out
@@ -282,7 +312,196 @@ def _crash_case(case):
                  uncaught=p.stderr.decode('utf-8', 'replace')[-200:] if p.returncode not in (0, 137) else '')]
 
 
+class Killed(BaseException):
+    """the process dies here: not an Exception, so no handler of the tool contains it"""
+
+
+def _multi_case(case):
+    """replay one behaviour of CleanWriteN through the real `peltool -p in -j -o out -c`"""
+    import pel.peltool.peltool as pt
+    rng = random.Random(case['seed'])
+    beh = case['beh']
+    base = seams.scratch_dir('c12m')
+    work = os.path.join(base, 'run')
+    shutil.rmtree(work, ignore_errors=True)
+    in_dir, out_dir = os.path.join(work, 'in'), os.path.join(work, 'out')
+    os.makedirs(in_dir)
+    os.makedirs(out_dir)
+    # per spec file: what happens to it
+    plan = {}
+    order = []
+    for st in beh['steps']:
+        f = st['f']
+        if st['a'] == 'pick':
+            order.append(f)
+            plan[f] = dict(decode=True, open=True, write=None, close=True, remove=True, crash=None, writes=0)
+        elif st['a'] == 'decode':
+            plan[f]['decode'] = st['ok']
+        elif st['a'] == 'open':
+            plan[f]['open'] = st['ok']
+        elif st['a'] == 'write':
+            if st['ok']:
+                plan[f]['writes'] += 1
+            else:
+                plan[f]['write'] = plan[f]['writes']
+        elif st['a'] == 'close':
+            plan[f]['close'] = st['ok']
+        elif st['a'] == 'remove':
+            plan[f]['remove'] = st['ok']
+        elif st['a'] == 'crash':
+            # where the behaviour stood when the process died: between two files ('pick') or inside one
+            plan.setdefault('_', {})['crash'] = ('next', None) if st['at'] == 'pick' else (st['at'], f)
+    crash_at = plan.pop('_', {}).get('crash')
+    if crash_at and crash_at[0] == 'write' and plan[crash_at[1]]['writes'] >= 2:
+        crash_at = ('close', crash_at[1])        # every write call was made: the next thing that happens is the close
+    spec_files = sorted(beh['input'])
+    # real files: names in the order the tool will meet them
+    pels, texts = {}, {}
+    names = ['%08X_%s' % (0x50000200 + k, rng.choice(['a', 'm', 'z'])) for k in range(len(spec_files))]
+    for k, nm in enumerate(names):
+        pel = genpel.gen_pel(rng, kinds=['PS', 'UD'][: 1 + k % 2], creator='O', sev=0x40, flags=0x2000,
+                             eid=encode.u32(0x50000200 + k))
+        pels[nm] = bytes(encode.encode(pel))
+        texts[nm] = _count_writes(pels[nm], False)
+    for nm in names:
+        seams.write_file(os.path.join(in_dir, nm), pels[nm])
+    walk = next(os.walk(in_dir))[2]
+    unpicked = [f for f in spec_files if f not in order]
+    assign = dict(zip(walk, order + unpicked))          # real name -> spec file
+    for nm, f in assign.items():
+        if f in plan and not plan[f]['decode']:
+            seams.write_file(os.path.join(in_dir, nm), pels[nm][: len(pels[nm]) - 9])      # undecodable
+    real_open, real_remove, real_unlink, real_io_open = builtins.open, os.remove, os.unlink, io.open
+    log = _Log()
+    nchunks = 2
+
+    def spec_of(path, outp=False):
+        b = os.path.basename(os.fspath(path))
+        for nm in assign:
+            if b == nm or (outp and b.startswith(nm + '.')):
+                return nm, assign[nm]
+        return None, None
+
+    class PlannedFile(FaultyFile):
+        def __init__(self, real, path, f, nm):
+            p = plan.get(f, {})
+            nw = len(texts[nm])
+            w = p.get('write')
+            fp = {'err': 'ENOSPC'}
+            if w is not None:
+                fp['write'] = 0 if w == 0 else max(1, (w * nw) // nchunks)
+            if p.get('close') is False:
+                fp['close'] = True
+            super().__init__(real, path, fp, log)
+            self.f = f
+            self.kill_write = None
+            if crash_at and crash_at[1] == f and crash_at[0] == 'write':
+                self.kill_write = 0 if p.get('writes', 0) == 0 else max(1, (p['writes'] * nw) // nchunks)
+
+        def write(self, s):
+            if self.kill_write is not None and self.nwrites >= self.kill_write:
+                raise Killed('during the writes of %s' % self.f)
+            return super().write(s)
+
+        def close(self):
+            if not self.closed and crash_at and crash_at[1] == self.f and crash_at[0] in ('close', 'closefail') \
+                    and sys.exc_info()[0] is not Killed:
+                self.closed = True
+                self.real.close()
+                raise Killed('at the close of %s' % self.f)
+            return super().close()
+
+    seen_inputs = []
+
+    fdmap = {}
+    real_os_open, real_fdopen = os.open, os.fdopen
+
+    def fake_os_open(path, flags, *a, **kw):
+        if isinstance(path, (str, os.PathLike)) and os.path.dirname(os.path.abspath(os.fspath(path))) == out_dir \
+                and flags & (os.O_WRONLY | os.O_RDWR):
+            nm, f = spec_of(path, True)
+            if crash_at == ('open', f):
+                raise Killed('before opening the output of %s' % f)
+            if f in plan and not plan[f]['open']:
+                _raise('ENOSPC', 'open')
+            fd = real_os_open(path, flags, *a, **kw)
+            fdmap[fd] = (os.fspath(path), f, nm)
+            return fd
+        return real_os_open(path, flags, *a, **kw)
+
+    def fake_open(file, mode_='r', *a, **kw):
+        if isinstance(file, int) and file in fdmap:
+            path, f, nm = fdmap.pop(file)
+            return PlannedFile(real_open(file, mode_, *a, **kw), path, f, nm)
+        if isinstance(file, (str, os.PathLike)):
+            d = os.path.dirname(os.path.abspath(os.fspath(file)))
+            if d == in_dir and 'b' in mode_ and 'w' not in mode_:
+                nm, f = spec_of(file)
+                seen_inputs.append(f)
+                if crash_at and (crash_at == ('decode', f) or
+                                 (crash_at[0] == 'next' and f not in order)):
+                    raise Killed('before decoding %s' % f)
+            if d == out_dir and ('w' in mode_ or 'x' in mode_ or 'a' in mode_):
+                nm, f = spec_of(file, True)
+                if crash_at == ('open', f):
+                    raise Killed('before opening the output of %s' % f)
+                if f in plan and not plan[f]['open']:
+                    _raise('ENOSPC', 'open')
+                real = real_open(file, mode_, *a, **kw)
+                return PlannedFile(real, os.fspath(file), f, nm)
+        return real_open(file, mode_, *a, **kw)
+
+    def fake_remove(path, *a, **kw):
+        nm, f = spec_of(path)
+        if f is not None and os.path.dirname(os.path.abspath(os.fspath(path))) == in_dir:
+            if crash_at == ('remove', f):
+                raise Killed('before removing %s' % f)
+            if f in plan and not plan[f]['remove']:
+                raise PermissionError(errno.EACCES, 'Permission denied (injected at remove)')
+        return real_remove(path, *a, **kw)
+
+    builtins.open, os.remove, os.unlink, io.open = fake_open, fake_remove, fake_remove, fake_open
+    os.open, os.fdopen = fake_os_open, fake_open
+    killed, uncaught = False, ''
+    old = (sys.argv, sys.stdout, sys.stderr)
+    sys.argv = ['peltool.py', '-p', in_dir, '-j', '-o', out_dir, '-c']
+    sys.stdout, sys.stderr = io.StringIO(), io.StringIO()
+    try:
+        try:
+            pt.main()
+        except SystemExit:
+            pass
+        except Killed:
+            killed = True
+        except BaseException as e:
+            uncaught = repr(e)[:200]
+    finally:
+        builtins.open, os.remove, os.unlink, io.open = real_open, real_remove, real_unlink, real_io_open
+        os.open, os.fdopen = real_os_open, real_fdopen
+        sys.argv, sys.stdout, sys.stderr = old
+    files = []
+    outs = os.listdir(out_dir)
+    for nm, f in sorted(assign.items(), key=lambda x: x[1]):
+        mine = [o for o in outs if o.startswith(nm + '.')]
+        if not mine:
+            ro = 'absent'
+        else:
+            with open(os.path.join(out_dir, mine[0])) as fh:
+                ro = 'complete' if len(mine) == 1 and fh.read() == texts[nm] else 'incomplete'
+        files.append(dict(f=f, spec_input=beh['input'][f], spec_out=beh['out'][f],
+                          real_input='present' if os.path.exists(os.path.join(in_dir, nm)) else 'removed', real_out=ro))
+    shutil.rmtree(work, ignore_errors=True)
+    return [dict(kind='multi', shape_ok=not uncaught and killed == bool(beh['crashed'] and crash_at and
+                                                                       (crash_at[0] != 'next' or unpicked)),
+                 mode='json', entry='main', fault='multi', err='crash' if beh['crashed'] else 'faults', pos='-',
+                 clean=True, hex=False, pel=0, events=[], files=files, steps=len(beh['steps']),
+                 input_present_after=all(x['real_input'] == 'present' for x in files), input_unchanged=True,
+                 out_complete=all(x['real_out'] == 'complete' for x in files), uncaught=uncaught)]
+
+
 def run_case(case):
+    if case.get('kind') == 'multi':
+        return _multi_case(case)
     if case.get('kind') == 'crash':
         return _crash_case(case)
     if case.get('kind') == 'rlimit':
@@ -326,7 +545,17 @@ def run_case(case):
     real_open, real_remove, real_unlink, real_io_open = builtins.open, os.remove, os.unlink, io.open
     opened = []
 
+    fdmap = {}
+    real_os_open, real_fdopen = os.open, os.fdopen
+
     def fake_open(file, mode_='r', *a, **kw):
+        if isinstance(file, int) and file in fdmap:          # open(fd, 'w') on a descriptor from os.open
+            path = fdmap.pop(file)
+            real = real_open(file, mode_, *a, **kw)
+            log.append('open_ok')
+            opened.append(path)
+            raw = (a and a[0] == 0) or kw.get('buffering') == 0
+            return (RawFaultyFile if raw else FaultyFile)(real, path, plan, log)
         if isinstance(file, (str, os.PathLike)) and os.path.dirname(os.path.abspath(os.fspath(file))) == out_dir \
                 and ('w' in mode_ or 'x' in mode_ or 'a' in mode_):
             file = os.fspath(file)
@@ -339,6 +568,21 @@ def run_case(case):
             raw = (a and a[0] == 0) or kw.get('buffering') == 0
             return (RawFaultyFile if raw else FaultyFile)(real, file, plan, log)
         return real_open(file, mode_, *a, **kw)
+
+    def fake_os_open(path, flags, *a, **kw):
+        # the same output opened through the low-level call (os.open + os.fdopen)
+        if isinstance(path, (str, os.PathLike)) and os.path.dirname(os.path.abspath(os.fspath(path))) == out_dir \
+                and flags & (os.O_WRONLY | os.O_RDWR):
+            if fault == 'open':
+                log.append('open_fail')
+                _raise(case.get('err', 'ENOSPC'), 'open')
+            fd = real_os_open(path, flags, *a, **kw)
+            fdmap[fd] = os.fspath(path)
+            return fd
+        return real_os_open(path, flags, *a, **kw)
+
+    def fake_fdopen(fd, *a, **kw):
+        return fake_open(fd, *a, **kw)
 
     def fake_remove(path, *a, **kw):
         if os.path.abspath(os.fspath(path)) == in_path:
@@ -353,6 +597,7 @@ def run_case(case):
     fake_out = FaultyStdout(plan if mode == 'file' else {}, log if mode == 'file' else _Log())
     uncaught = None
     builtins.open, os.remove, os.unlink, io.open = fake_open, fake_remove, fake_unlink, fake_open
+    os.open, os.fdopen = fake_os_open, fake_fdopen
     try:
         if case['entry'] == 'func':
             cfg = Config()
@@ -382,6 +627,7 @@ def run_case(case):
                     pass
     finally:
         builtins.open, os.remove, os.unlink, io.open = real_open, real_remove, real_unlink, real_io_open
+        os.open, os.fdopen = real_os_open, real_fdopen
     present = os.path.exists(in_path)
     unchanged = present and hashlib.sha256(open(in_path, 'rb').read()).hexdigest() == before
     if mode == 'json':
@@ -408,6 +654,9 @@ def run_case(case):
 
 
 def nontrivial(r):
+    if r['kind'] == 'multi':
+        st = tuple((f['spec_input'], f['spec_out']) for f in r['files'])
+        return ('multi', r['err'], r['steps'], st) if any(x != ('present', 'absent') for x in st) else None
     if r['fault'] == 'none' and r['input_present_after']:
         return None
     return (r['mode'], r['entry'], r['fault'], r['err'], r['pos'], r['clean'], r['hex'], r['pel'])
@@ -419,10 +668,17 @@ def fingerprint(r, clauses):
 
 
 def sample(r):
+    if r['kind'] == 'multi':
+        return dict(kind='multi: a TLC-enumerated behaviour of CleanWriteN replayed through -j -c', steps=r['steps'],
+                    ended=r['err'], files=r['files'])
     return {k: r[k] for k in ('mode', 'entry', 'fault', 'err', 'pos', 'clean', 'hex', 'events',
                               'input_present_after', 'out_complete')}
 
 
 def corrupt(r):
+    if r['kind'] == 'multi':
+        f = r['files'][0]
+        f['real_input'] = 'removed' if f['real_input'] == 'present' else 'present'
+        return r
     r['events'] = ['remove'] + r['events']
     return r
